@@ -1,0 +1,254 @@
+//go:build verif
+
+// Verification hook (build tag verif only; add-only).  When NSQ_VERIF_DRIVER=1 the
+// init() below runs a real FileLogger's router() against a scripted event stream and
+// exits before main: the only way to reach this package-main code in-process.
+//
+//   NSQ_VERIF_SCRIPT  path of the JSON script (options + events)
+//   NSQ_VERIF_MARKER  path of the marker file: one JSON line per injected event,
+//                     per FIN/REQ/TOUCH seen by the recording MessageDelegate and per
+//                     log line, each written with its own write(2) so that an outside
+//                     syscall tracer sees them in order with the logger's file I/O.
+//
+// NSQ_VERIF_DRIVER=strftime instead evaluates the real strftime() on a list of
+// (format, unix-seconds) pairs (UTC) and prints the renderings.
+package main
+
+import (
+	"encoding/base64"
+	"encoding/json"
+	"fmt"
+	"os"
+	"runtime"
+	"strings"
+	"sync"
+	"time"
+
+	"github.com/nsqio/go-nsq"
+	"github.com/nsqio/nsq/internal/lg"
+)
+
+type verifOpts struct {
+	OutputDir        string `json:"output_dir"`
+	WorkDir          string `json:"work_dir"`
+	GZIP             bool   `json:"gzip"`
+	GZIPLevel        int    `json:"gzip_level"`
+	RotateSize       int64  `json:"rotate_size"`
+	RotateIntervalNs int64  `json:"rotate_interval_ns"`
+	SkipEmpty        bool   `json:"skip_empty"`
+	SyncIntervalNs   int64  `json:"sync_interval_ns"`
+	MaxInFlight      int    `json:"max_in_flight"`
+	FilenameFormat   string `json:"filename_format"`
+	DatetimeFormat   string `json:"datetime_format"`
+	HostIdentifier   string `json:"host_identifier"`
+	Topic            string `json:"topic"`
+}
+
+type verifEvent struct {
+	K    string `json:"k"` // msg | hup | term | sleep | settle
+	ID   int    `json:"id,omitempty"`
+	Body string `json:"body_b64,omitempty"`
+	Ms   int    `json:"ms,omitempty"`
+}
+
+type verifScript struct {
+	Opts   verifOpts    `json:"opts"`
+	Events []verifEvent `json:"events"`
+}
+
+type verifMarker struct {
+	mu sync.Mutex
+	f  *os.File
+}
+
+func (m *verifMarker) emit(v map[string]interface{}) {
+	b, _ := json.Marshal(v)
+	b = append(b, '\n')
+	m.mu.Lock()
+	m.f.Write(b)
+	m.mu.Unlock()
+}
+
+type verifDelegate struct{ mk *verifMarker }
+
+func verifMsgID(m *nsq.Message) string { return strings.TrimRight(string(m.ID[:]), "\x00") }
+
+func (d *verifDelegate) OnFinish(m *nsq.Message) {
+	d.mk.emit(map[string]interface{}{"m": "FIN", "id": verifMsgID(m)})
+}
+func (d *verifDelegate) OnRequeue(m *nsq.Message, delay time.Duration, backoff bool) {
+	d.mk.emit(map[string]interface{}{"m": "REQ", "id": verifMsgID(m)})
+}
+func (d *verifDelegate) OnTouch(m *nsq.Message) {
+	d.mk.emit(map[string]interface{}{"m": "TOUCH", "id": verifMsgID(m)})
+}
+
+// verifRouterState: "select" when the router goroutine is parked in its select,
+// "gone" when it has returned, "busy" otherwise.
+func verifRouterState() string {
+	buf := make([]byte, 1<<20)
+	n := runtime.Stack(buf, true)
+	for _, blk := range strings.Split(string(buf[:n]), "\n\n") {
+		if !strings.Contains(blk, "main.(*FileLogger).router(") {
+			continue
+		}
+		if strings.Contains(blk, "main.verifRouterState") {
+			continue
+		}
+		head := blk
+		if i := strings.Index(blk, "\n"); i >= 0 {
+			head = blk[:i]
+		}
+		if strings.Contains(head, "[select") {
+			return "select"
+		}
+		return "busy"
+	}
+	return "gone"
+}
+
+func init() {
+	switch os.Getenv("NSQ_VERIF_DRIVER") {
+	case "1":
+		verifRunScript()
+	case "strftime":
+		verifStrftime()
+	}
+}
+
+func verifStrftime() {
+	var in []struct {
+		F string `json:"f"`
+		T int64  `json:"t"`
+	}
+	if err := json.NewDecoder(os.Stdin).Decode(&in); err != nil {
+		fmt.Fprintln(os.Stderr, "verif: bad strftime input:", err)
+		os.Exit(3)
+	}
+	out := make([]string, len(in))
+	for i, q := range in {
+		out[i] = base64.StdEncoding.EncodeToString([]byte(strftime(q.F, time.Unix(q.T, 0).UTC())))
+	}
+	json.NewEncoder(os.Stdout).Encode(out)
+	os.Exit(0)
+}
+
+func verifRunScript() {
+	fail := func(format string, a ...interface{}) {
+		fmt.Fprintf(os.Stderr, "verif: "+format+"\n", a...)
+		os.Exit(3)
+	}
+	raw, err := os.ReadFile(os.Getenv("NSQ_VERIF_SCRIPT"))
+	if err != nil {
+		fail("script: %v", err)
+	}
+	var sc verifScript
+	if err := json.Unmarshal(raw, &sc); err != nil {
+		fail("script: %v", err)
+	}
+	mf, err := os.OpenFile(os.Getenv("NSQ_VERIF_MARKER"), os.O_WRONLY|os.O_CREATE|os.O_APPEND, 0o644)
+	if err != nil {
+		fail("marker: %v", err)
+	}
+	mk := &verifMarker{f: mf}
+
+	opts := NewOptions()
+	o := sc.Opts
+	opts.OutputDir = o.OutputDir
+	opts.WorkDir = o.WorkDir
+	if opts.WorkDir == "" {
+		opts.WorkDir = opts.OutputDir // as main() does
+	}
+	opts.GZIP = o.GZIP
+	if o.GZIPLevel != 0 {
+		opts.GZIPLevel = o.GZIPLevel
+	}
+	opts.RotateSize = o.RotateSize
+	opts.RotateInterval = time.Duration(o.RotateIntervalNs)
+	opts.SkipEmptyFiles = o.SkipEmpty
+	opts.SyncInterval = time.Duration(o.SyncIntervalNs)
+	opts.MaxInFlight = o.MaxInFlight
+	if o.FilenameFormat != "" {
+		opts.FilenameFormat = o.FilenameFormat
+	}
+	if o.DatetimeFormat != "" {
+		opts.DatetimeFormat = o.DatetimeFormat
+	}
+	opts.HostIdentifier = o.HostIdentifier
+	opts.Channel = "verif"
+
+	logf := func(lvl lg.LogLevel, f string, args ...interface{}) {
+		if lvl >= lg.INFO {
+			mk.emit(map[string]interface{}{"m": "LOG", "lvl": int(lvl), "text": fmt.Sprintf(f, args...)})
+		}
+	}
+	cfg := nsq.NewConfig()
+	cfg.MaxInFlight = opts.MaxInFlight
+	f, err := NewFileLogger(logf, opts, o.Topic, cfg)
+	if err != nil {
+		mk.emit(map[string]interface{}{"m": "NEWERR", "text": err.Error()})
+		os.Exit(0)
+	}
+	f.consumer.SetLoggerLevel(nsq.LogLevelError)
+	hostname, _ := os.Hostname()
+	mk.emit(map[string]interface{}{"m": "START", "filename_format": f.filenameFormat, "pid": os.Getpid(), "hostname": hostname})
+
+	done := make(chan struct{})
+	go func() {
+		f.router()
+		close(done)
+	}()
+
+	gone := false
+	settle := func() {
+		for {
+			select {
+			case <-done:
+				gone = true
+				return
+			default:
+			}
+			if len(f.logChan) == 0 && verifRouterState() == "select" {
+				return
+			}
+			time.Sleep(200 * time.Microsecond)
+		}
+	}
+	clock := func() (int64, string, int64) {
+		t := time.Now()
+		return t.UnixNano(), strftime(opts.DatetimeFormat, t), f.openTime.UnixNano()
+	}
+	settle()
+	dlg := &verifDelegate{mk: mk}
+	for i, ev := range sc.Events {
+		if gone {
+			break
+		}
+		t0, dt0, ot0 := clock()
+		mk.emit(map[string]interface{}{"m": "EV", "i": i, "k": ev.K, "id": ev.ID, "t0": t0, "dt0": dt0, "open0": ot0})
+		switch ev.K {
+		case "msg":
+			body, _ := base64.StdEncoding.DecodeString(ev.Body)
+			var id nsq.MessageID
+			copy(id[:], fmt.Sprintf("%d", ev.ID))
+			m := nsq.NewMessage(id, body)
+			m.Delegate = dlg
+			f.HandleMessage(m)
+		case "hup":
+			f.hupChan <- true
+		case "term":
+			close(f.termChan) // what TopicDiscoverer.run does on SIGTERM
+			<-done
+			gone = true
+		case "sleep":
+			time.Sleep(time.Duration(ev.Ms) * time.Millisecond)
+		case "settle":
+		}
+		settle()
+		t1, dt1, ot1 := clock()
+		mk.emit(map[string]interface{}{"m": "DONE", "i": i, "t1": t1, "dt1": dt1, "open1": ot1,
+			"filename": f.filename, "rev": f.rev, "filesize": f.filesize, "out_nil": f.out == nil, "gone": gone})
+	}
+	mk.emit(map[string]interface{}{"m": "END", "gone": gone})
+	os.Exit(0)
+}
